@@ -383,7 +383,8 @@ def offsets_to_ask(r, spans):
     for ln in r.deco_lines:
         # a decorator line belongs to the def statement (rope's region starts at the `@`) while
         # its expression is evaluated outside the function: not asked
-        skip.update(range(starts[ln - 1], starts[ln]))
+        col = max([a[1] for (a, b) in spans.values() if a[0] == ln + 1] or [0])
+        skip.update(range(starts[ln - 1], starts[ln] + col + 1))
     total = starts[-1]
     return [o for o in range(total) if o not in skip]
 
